@@ -76,8 +76,23 @@ def h_ports(ctx, ninit, nnotes, refresh=None):
     for (n2, _, _) in orig: ctx.assume(n2 != d[0])      # a switch reports each port number once
     fr.ports.append(p); orig.append(d)
   ref = list(orig)
+  # an application may look at the view at any moment (len / iteration / keys / values / items of the live and of the original collection):
+  # looking must not change what the view shows later.  One solver-chosen moment of the history gets such a look.
+  npos = 1 + nnotes + (2 if refresh is not None else 0)
+  peekat = int(ctx.int('peekat', 0, npos + 1))          # npos + 1: never
+  pos = [0]
+  def moment():
+    if pos[0] == peekat:
+      ctx.witness('peeked')
+      for coll in (con.ports, con.original_ports):
+        len(coll); list(coll.keys()); list(iter(coll))
+        try: coll.values(); coll.items()
+        except Exception as e: ctx.check('looking at the view raises nothing (%s)' % type(e).__name__, False)
+    pos[0] += 1
+  moment()
   sock.feed(fr.pack()); ctx.check('read', con.read() is True)
   for j in range(nnotes):
+    moment()
     reason = ctx.int('reason%d' % j, 0, 2)
     p, d = mkport('n%d' % j, NAMES[ninit + j])
     ps = of.ofp_port_status(reason=reason, desc=p)
@@ -99,8 +114,10 @@ def h_ports(ctx, ninit, nnotes, refresh=None):
       fr2.ports = list(fr.ports[1:]) + [p]
       for (n2, _, _) in orig[1:]: ctx.assume(n2 != d[0])
       orig = orig[1:] + [d]
+    moment()
     sock.feed(fr2.pack()); ctx.check('read', con.read() is True)
     ref = list(orig)
+    moment()
     reason = ctx.int('reason_late', 0, 2)
     p, d = mkport('late', NAMES[ninit + nnotes + 1])
     sock.feed(of.ofp_port_status(reason=reason, desc=p).pack()); ctx.check('read', con.read() is True)
@@ -296,7 +313,7 @@ def obligations(tier):
                       stats="two requests (contiguous part sequences), 1..3 parts each (flow/table also 4 and 6 parts; thorough 5 + 6), all 4 multipart types + desc/aggregate, barrier/echo interleaved, xids symbolic")
   pc = pc + [dict(ninit=2, nnotes=1, refresh='same'), dict(ninit=1, nnotes=1, refresh='other')] + ([dict(ninit=2, nnotes=2, refresh='same'), dict(ninit=2, nnotes=1, refresh='other')] if thorough else [])
   return [
-    Obligation('O1_ports', h_ports, pc, witnesses=('done', 'add', 'replace', 'delete-hit', 'delete-miss', 'refreshed'), max_decisions=20000,
+    Obligation('O1_ports', h_ports, pc, witnesses=('done', 'add', 'replace', 'delete-hit', 'delete-miss', 'refreshed', 'peeked'), max_decisions=20000,
                desc='PortCollection view == reference map after features reply + port-status notifications'),
     Obligation('O4_ports_handshake', h_ports_handshake, [dict(nearly=a, nlate=b) for a, b in ((1, 0), (2, 0), (2, 1), (3, 0) if thorough else (1, 1))] + [dict(nearly=1, nlate=2, coalesce=True), dict(nearly=0, nlate=1, coalesce=True), dict(nearly=2, nlate=0, restore=True), dict(nearly=2, nlate=1, restore=True)], witnesses=('done',),
                max_decisions=20000, desc='port-status notifications inside the handshake window are applied (and announced) in arrival order'),
